@@ -6,7 +6,12 @@
 // enum, that this has been done everywhere inside a formatted expression.
 //
 // Token level (uninterpreted: the trivia lists of a TokenReference are opaque to the verifier):
-//   tok_open(t)   the trailing trivia of t ends with a line comment that no newline follows
+//   tok_open(t)   the trailing trivia of t hold a line comment that no newline *created by the formatter* (is_newline_tok: a token
+//                 create_newline_trivia made — never a whitespace token the parser produced) follows. For a token of the formatted
+//                 output, whose whitespace is all formatter-made (unit tok: input whitespace is never copied), that is "the line is
+//                 still open behind t"; for a token of the parsed input — full_moon keeps the line's own newline in the trailing
+//                 trivia — it is "t has a line comment behind it". Both readings are needed (format_token_reference: open(output)
+//                 ==> open(input); update_trailing_trivia(Append([newline])) closes), and this one definition gives both.
 //   tok_nl(t)     the leading trivia of t puts the token itself at the start of a new line (a newline, possibly an
 //                 indent, then the token), so t may follow an open token
 pub uninterp spec fn tok_open(t: TokenReference) -> bool;
